@@ -128,21 +128,27 @@ def router_to_dealer(name, transport, shapes, set_more):
             "tasks": [{"name": "router", "ops": r_ops}, {"name": "dealer", "ops": d_ops}]}
 
 
-def detach_scenario(name, transport):
-    """Peer A's 3-frame message is half read (one recv) when peer B disconnects."""
+def detach_scenario(name, transport, pair=("PUSH", "PULL")):
+    """Peer A's 3-frame message is half read (frame by frame) when peer B disconnects."""
     ep = S.endpoint(transport, name)
-    return {"name": name, "deadline_ms": 40000, "sent": {"a:1": [24, 24, 24], "a:2": [24, 24]}, "strip": 0,
-            "sockets": [{"name": "rx", "type": "PULL", "opts": []}, {"name": "ta", "type": "PUSH", "opts": []}, {"name": "tb", "type": "PUSH", "opts": [S.i32(S.LINGER, 100)]}],
-            "tasks": [{"name": "rx", "ops": [{"op": "bind", "sock": "rx", "ep": ep, "save": "ep"}, {"op": "barrier", "name": "go", "parties": 3},
-                                            {"op": "recv", "sock": "rx", "timeout_ms": 3000},
-                                            {"op": "barrier", "name": "half", "parties": 2}, {"op": "sleep", "ms": 700},
-                                            {"op": "recv", "sock": "rx", "timeout_ms": 1500}, {"op": "recv", "sock": "rx", "timeout_ms": 1500},
-                                            {"op": "recv_mp", "sock": "rx", "timeout_ms": 1500}, {"op": "recv", "sock": "rx", "timeout_ms": 300}]},
-                      {"name": "ta", "ops": [{"op": "barrier", "name": "go", "parties": 3}, {"op": "connect", "sock": "ta", "ep": "$ep"}, {"op": "sleep", "ms": 250},
-                                            {"op": "send_mp", "sock": "ta", "mid": "a:1", "sizes": [24, 24, 24], "timeout_ms": 3000},
-                                            {"op": "send_mp", "sock": "ta", "mid": "a:2", "sizes": [24, 24], "timeout_ms": 3000},
+    txt, rxt = pair
+    strip = 1 if rxt == "ROUTER" else 0
+    rxo = [[S.SUBSCRIBE, "str", ""]] if rxt == "SUB" else ([[S.ROUTING_ID, "str", "rx"]] if rxt == "DEALER" else [])
+    tao = [[S.ROUTING_ID, "str", "ta"]] if txt == "DEALER" else []
+    tbo = [S.i32(S.LINGER, 100)] + ([[S.ROUTING_ID, "str", "tb"]] if txt == "DEALER" else [])
+    pre = {"prefix_hex": [b"rx".hex()]} if txt == "ROUTER" else {}
+    first_reads = [{"op": "recv", "sock": "rx", "timeout_ms": 3000} for _ in range(1 + strip)]
+    more_reads = [{"op": "recv", "sock": "rx", "timeout_ms": 1500} for _ in range(2 + (2 + strip))]
+    return {"name": name, "deadline_ms": 40000, "sent": {"a:1": [24, 24, 24], "a:2": [24, 24]}, "strip": strip,
+            "sockets": [{"name": "rx", "type": rxt, "opts": rxo}, {"name": "ta", "type": txt, "opts": tao}, {"name": "tb", "type": txt, "opts": tbo}],
+            "tasks": [{"name": "rx", "ops": [{"op": "bind", "sock": "rx", "ep": ep, "save": "ep"}, {"op": "barrier", "name": "go", "parties": 3}] + first_reads +
+                                            [{"op": "barrier", "name": "half", "parties": 2}, {"op": "sleep", "ms": 700}] + more_reads +
+                                            [{"op": "recv", "sock": "rx", "timeout_ms": 300}]},
+                      {"name": "ta", "ops": [{"op": "barrier", "name": "go", "parties": 3}, {"op": "connect", "sock": "ta", "ep": "$ep"}, {"op": "sleep", "ms": 350},
+                                            dict({"op": "send_mp", "sock": "ta", "mid": "a:1", "sizes": [24, 24, 24], "timeout_ms": 3000}, **pre),
+                                            dict({"op": "send_mp", "sock": "ta", "mid": "a:2", "sizes": [24, 24], "timeout_ms": 3000}, **pre),
                                             {"op": "sleep", "ms": 2500}]},
-                      {"name": "tb", "ops": [{"op": "barrier", "name": "go", "parties": 3}, {"op": "connect", "sock": "tb", "ep": "$ep"}, {"op": "sleep", "ms": 250},
+                      {"name": "tb", "ops": [{"op": "barrier", "name": "go", "parties": 3}, {"op": "connect", "sock": "tb", "ep": "$ep"}, {"op": "sleep", "ms": 350},
                                             {"op": "barrier", "name": "half", "parties": 2},
                                             {"op": "close", "sock": "tb", "timeout_ms": 3000}]}]}
 
@@ -221,6 +227,10 @@ def run(ctx):
     scs.append(mp_scenario("mp-pushpull-tcp-uring-mixed", "PUSH", "PULL", "tcp", "mixed", SHAPES, uring=True))
     scs.append(detach_scenario("mp-detach-tcp", "tcp"))
     scs.append(detach_scenario("mp-detach-ipc", "ipc"))
+    # the same for every socket type that can be read frame by frame
+    for pair in [("ROUTER", "DEALER"), ("DEALER", "ROUTER"), ("PUB", "SUB"), ("DEALER", "DEALER")]:
+        for tr in (["tcp", "ipc", "inproc"] if thorough else ["tcp"]):
+            scs.append(detach_scenario("mp-detach%s-%s" % (pair[1].lower(), tr), tr, pair))
     scs.append(concurrent_scenario("mp-concurrent-tcp", "tcp"))
     for (t, rcv) in [("PUSH", "PULL"), ("DEALER", "ROUTER"), ("PUB", "SUB")]:
         for nf in ([249, 250, 251, 253, 255, 256, 300] if thorough else [250, 251, 255, 256]):
